@@ -230,6 +230,29 @@ func (c *PathCtx) NilState(v ssa.Value) int {
 		if isPkgFuncCall(x, "fmt", "Errorf") || isPkgFuncCall(x, "errors", "New") {
 			return -1
 		}
+		// a module function every return of which yields a function literal or a named function
+		if sc := x.Call.StaticCallee(); sc != nil && sc.Blocks != nil && sc.Signature.Results().Len() == 1 {
+			all, n := true, 0
+			for _, ret := range returnsOf(sc) {
+				n++
+				rv := ret.Results[0]
+				for {
+					if ct, isCT := rv.(*ssa.ChangeType); isCT {
+						rv = ct.X
+						continue
+					}
+					break
+				}
+				switch rv.(type) {
+				case *ssa.MakeClosure, *ssa.Function:
+				default:
+					all = false
+				}
+			}
+			if all && n > 0 {
+				return -1
+			}
+		}
 	case *ssa.UnOp:
 		// load of a package-level error variable (ErrXxx): non-nil sentinel
 		if x.Op == token.MUL {
